@@ -149,6 +149,7 @@ type solveOpts struct {
 	Dir      string
 	Workers  int
 	KeepAll  bool
+	CrossCheck bool // thorough tier: every unsat is re-asked to the other solvers and with another seed; a sat is a disagreement
 }
 
 func runSolver(ctx context.Context, sc SolverCfg, file string, timeoutS, seed int) (string, string) {
@@ -245,6 +246,28 @@ func (ob *Obligation) solve(opts solveOpts) {
 }
 
 func (ob *Obligation) finish(res, solver, out, fname string, opts solveOpts) {
+	if opts.CrossCheck && res == "unsat" && !ob.Cover {
+		// second opinions: the other solvers (15 s each) and the same solver with another seed. unknown/timeout is no opinion.
+		agree := []string{solver}
+		for _, sc := range solvers {
+			seed := opts.Seed
+			if sc.Name == solver {
+				seed = opts.Seed + 7919
+			}
+			r, o := runSolver(context.Background(), sc, fname, 15, seed)
+			if r == "sat" {
+				ob.Result, ob.Solver, ob.RawOut = "disagreement", solver+" unsat / "+sc.Name+" sat", o
+				if len(ob.RawOut) > 4000 {
+					ob.RawOut = ob.RawOut[:4000]
+				}
+				return
+			}
+			if r == "unsat" {
+				agree = append(agree, sc.Name)
+			}
+		}
+		ob.CrossChecked = agree
+	}
 	ob.Result, ob.Solver, ob.RawOut = res, solver, out
 	if res == "sat" {
 		ob.Model = parseValues(out)
